@@ -313,7 +313,7 @@ func checkC10(c *Check) {
 
 	// B side: rejections (errors) of the scan
 	c.justify(pg, "O-C10.B", errorOrigins(pg, 1), []Viol{
-		{Name: "nil argument", All: []LP{AnyOf(A("+IsNil(" + certP + ")"), LP{Desc: "+IsNil(param)", F: func(l Label) bool {
+		{Name: "nil argument", All: []LP{AnyOf(A("+IsNil("+certP+")"), LP{Desc: "+IsNil(param)", F: func(l Label) bool {
 			return l.Kind == "atom" && l.Pol && strings.HasPrefix(l.Key, "IsNil(p")
 		}})}},
 		{Name: "invalidity date of a matching entry does not decode", All: []LP{match, A("+OidEq([encoding/asn1.ObjectIdentifier: 2, 5, 29, 24], " + ext + ".Id)"), A("-IsNil(" + unm + "#1)")}},
